@@ -144,10 +144,12 @@ class ListWrapper(typing.MutableSequence[T]):
         return len(self._data)
 
     def insert(self, i: int, v: T) -> None:
-        # An index that a list refuses is refused before the hook runs.
+        # An index that a list refuses is refused before any hook runs.
         list(self._data).insert(i, v)
-        self._add(v)
-        return self._data.insert(i, v)
+        # As an empty slice assignment: an item that is in this list already
+        # moves to where a list would insert it (not one place further, which
+        # is where the index points once the old occurrence is gone).
+        self[i:i] = [v]
 
     # The version of typing.py which comes with python 3.5.2 doesn't provide
     # definitions for append or remove on MutableList, so we have to do it
